@@ -1,7 +1,7 @@
 (* Model/Dispatch.v -- the single extracted entry point.  op numbers: <property>*100 + k *)
 From Coq Require Import ZArith List Bool.
 From B2Z Require Import Base.Prims Base.Sx Model.Partitions Model.IndexParse Model.BinArith Model.Schema Model.Overlap Model.Icf Model.RegionIndex Model.Plink Model.LocalAlleles.
-From B2Z Require Model.Regions Model.Workers Model.Footprint Protocol.Exec.
+From B2Z Require Model.Regions Model.Workers Model.Footprint Protocol.Exec Model.Spec.
 Import ListNotations.
 Open Scope Z_scope.
 
@@ -349,11 +349,64 @@ Definition d_C06 (k : Z) (arg : sx) : sx :=
   | _, _ => err_sx 2
   end.
 
+(* ---- C01 : reference encoder ---- *)
+Definition un_vec (s : sx) : option Spec.vec :=
+  match s with L l => mapO as_optZ l | _ => None end.
+Definition un_infoval (s : sx) : option Spec.infoval :=
+  match s with
+  | L [] => Some Spec.IAbsent
+  | L [A 1] => Some Spec.IFlag
+  | L [A 2; v] => match un_vec v with Some v => Some (Spec.IVec v) | None => None end
+  | _ => None end.
+Definition un_optvec (s : sx) : option (option Spec.vec) :=
+  match s with L [] => Some None | L [v] => match un_vec v with Some v => Some (Some v) | None => None end | _ => None end.
+Definition un_fmtval (s : sx) : option Spec.fmtval :=
+  match s with
+  | L [] => Some Spec.FAbsent
+  | L [A 1; per] => match un_list un_optvec per with Some p => Some (Spec.FSamples p) | None => None end
+  | _ => None end.
+Definition un_call (s : sx) : option (list (option Z) * bool) :=
+  match s with L [al; A ph] => match un_vec al with Some a => Some (a, negb (ph =? 0)) | None => None end | _ => None end.
+Definition un_srecord (s : sx) : option Spec.record :=
+  match s with
+  | L [A c; A p; id; A rf; A rl; alts; qual; filt; info; fmt; gt] =>
+      match as_optZ id, as_ZL alts, as_optZ qual,
+            (match filt with L [] => Some None | L [f] => match as_ZL f with Some f => Some (Some f) | None => None end | _ => None end),
+            un_list un_infoval info, un_list un_fmtval fmt,
+            (match gt with L [] => Some None | L [g] => match un_list un_call g with Some g => Some (Some g) | None => None end | _ => None end) with
+      | Some id, Some alts, Some qual, Some filt, Some info, Some fmt, Some gt =>
+          Some {| Spec.r_contig := c; Spec.r_pos := p; Spec.r_id := id; Spec.r_ref := rf; Spec.r_reflen := rl; Spec.r_alts := alts;
+                  Spec.r_qual := qual; Spec.r_filters := filt; Spec.r_info := info; Spec.r_fmt := fmt; Spec.r_gt := gt |}
+      | _, _, _, _, _, _, _ => None end
+  | _ => None end.
+Definition un_header (s : sx) : option Spec.header :=
+  match s with
+  | L [A nc; A nf; A ns; infos; fmts; A hg] =>
+      match as_PL infos, as_PL fmts with
+      | Some i, Some f => Some {| Spec.h_ncontigs := nc; Spec.h_nfilters := nf; Spec.h_nsamples := Z.to_nat ns;
+                                  Spec.h_infos := i; Spec.h_fmts := f; Spec.h_has_gt := negb (hg =? 0) |}
+      | _, _ => None end
+  | _ => None end.
+Definition sx_sname (n : Spec.aname) : sx :=
+  match n with Spec.AFixed k => L [A 0; A k] | Spec.AInfo i => L [A 1; A i] | Spec.AFmt i => L [A 2; A i] end.
+Definition sx_sarray (a : Spec.array) : sx :=
+  L [sx_sname (Spec.a_name a); A (Spec.a_dtype a); of_Zs (Spec.a_shape a); of_Zs (Spec.a_vals a)].
+Definition d_C01 (k : Z) (arg : sx) : sx :=
+  match k, arg with
+  | 0, L [h; recs] =>
+      match un_header h, un_list un_srecord recs with
+      | Some h, Some rs => match Spec.spec_encode h rs with Ok arrs => L [A 1; L (map sx_sarray arrs)] | Err e => L [A 0; A e] end
+      | _, _ => err_sx 1 end
+  | 1, L [got; want] => match as_ZL got, as_ZL want with Some g, Some w => of_bool (Spec.vals_match g w) | _, _ => err_sx 1 end
+  | _, _ => err_sx 2
+  end.
+
 Definition dispatch (op : Z) (arg : sx) : sx :=
   let p := op / 100 in
   let k := op mod 100 in
   match p with
   | 11 => d_C11 k arg
+  | 1 => d_C01 k arg
   | 4 => d_C04 k arg
   | 5 => d_C05 k arg
   | 6 => d_C06 k arg
